@@ -28,11 +28,14 @@ ObsInit(C) ==
     serr    |-> {},       \* generations in which some Shutdown returned an error
     prov    |-> 0,        \* number of provider Shutdown calls
     st      |-> "Starting", \* last sampled GetState()
+    nclos   |-> 0,        \* number of times the sampled state changed to Closing
+    pend    |-> {},       \* Shutdown() calls in progress: [id, s0 = sample before, nc = nclos before]
     closed  |-> FALSE,    \* Closed has been sampled
     late    |-> FALSE,    \* something happened to a component after Closed had been sampled
     back    |-> FALSE,    \* a state other than Closed was sampled after Closed
     ret     |-> "none",   \* "none" | "nil" | "err" : Run returned
     ntrig   |-> 0,        \* reload triggers injected that can take effect (delivered change, SIGHUP)
+    nsig    |-> 0,        \* signals sent while the collector had its handlers installed
     stop    |-> FALSE,    \* a sticky stop reason is outstanding (see OExt...)
     fgen    |-> 0,        \* newest generation in which a fatal error was accepted
     tmo     |-> FALSE,    \* the watchdog expired: nothing moves and Run has not returned
@@ -41,6 +44,7 @@ ObsInit(C) ==
 
 \* ---- sampling GetState() (every recorded event carries a sample taken under the recorder mutex)
 OSample(o, s) == [o EXCEPT !.st = s,
+                           !.nclos = IF s = "Closing" /\ o.st # "Closing" THEN @ + 1 ELSE @,
                            !.closed = @ \/ s = "Closed",
                            !.back = @ \/ (o.closed /\ s # "Closed")]
 
@@ -63,15 +67,28 @@ OReturn(o, err, s)    == [OSample(o, s) EXCEPT !.ret = IF err THEN "err" ELSE "n
 \*      that keeps running: they stay pending (closed channel, cancelled context, buffered signal or
 \*      notification) until the loop looks at them.
 Live2(s) == s \in {"Running", "Starting"}
-\* Shutdown(): s0 / s1 = GetState() sampled before / after the call.  The request is certainly
-\* effective when the state was Running or Starting all the time (the statement does not say that a
-\* request made while the collector is already Closing -- which includes a reload -- must be kept).
-OExtShutdown(o, s0, s1, bad) == [OSample(o, s1) EXCEPT !.stop = @ \/ (Live2(s0) /\ Live2(s1) /\ ~bad),
-                                                      !.shutbad = @ \/ bad]
+\* Shutdown(): GetState() is sampled before (s0) and after (s1) the call.  The request is certainly
+\* effective when the state was Running or Starting during the whole call: both samples say so and
+\* no Closing phase was observed in between (the components of the retiring service log their
+\* shutdown, sampled Closing, before the state leaves Closing again).  The statement does not say
+\* that a request made while the collector is already Closing -- which includes the retirement of
+\* the old service during a reload -- must be remembered; the code drops it.
+OExtShutdownBegin(o, id, s0) ==
+  LET o1 == OSample(o, s0) IN [o1 EXCEPT !.pend = @ \cup {[id |-> id, s0 |-> s0, nc |-> o1.nclos]}]
+OExtShutdownEnd(o, id, s1, bad) ==
+  LET o1 == OSample(o, s1)
+      p  == CHOOSE x \in o.pend : x.id = id
+  IN [o1 EXCEPT !.pend = @ \ {p},
+                !.stop = @ \/ (Live2(p.s0) /\ Live2(s1) /\ o1.nclos = p.nc /\ ~bad),
+                !.shutbad = @ \/ bad]
 OExtCtx(o, s)         == [OSample(o, s) EXCEPT !.stop = TRUE]
-\* reg: the collector had its signal handlers installed when the signal was sent
-OExtSigterm(o, reg, s) == [OSample(o, s) EXCEPT !.stop = @ \/ reg]
-OExtSighup(o, reg, s)  == [OSample(o, s) EXCEPT !.ntrig = IF reg THEN @ + 1 ELSE @]
+\* reg: the collector had its signal handlers installed when the signal was sent.  The collector's
+\* signal channel holds 3 signals and the Go runtime drops what does not fit, so only the first three
+\* signals of a run are certain to be seen.
+OExtSigterm(o, reg, s) == [OSample(o, s) EXCEPT !.stop = @ \/ (reg /\ o.nsig < 3),
+                                                !.nsig = IF reg THEN @ + 1 ELSE @]
+OExtSighup(o, reg, s)  == [OSample(o, s) EXCEPT !.ntrig = IF reg THEN @ + 1 ELSE @,
+                                                !.nsig = IF reg THEN @ + 1 ELSE @]
 \* a change notification was made (it may still be in flight)
 OExtChange(o, s)      == [OSample(o, s) EXCEPT !.ntrig = @ + 1]
 \* a notification call returned: delivered (ok) or panicked
